@@ -525,7 +525,7 @@ package common
 //@   ensures time: ctx_t >= old(ctx_t)
 //@ func (s BeaconState) ProcessBlock(ctx, spec, epc, benv) err
 //@   trusted
-//@   assigns anything, ghost(ctx_t), ghost(ctx_seen), ghost(n_eng_notify), ghost(n_set_exec_header), ghost(n_set_mix), ghost(last_set_mix_epoch), ghost(last_set_mix)
+//@   assigns anything, ghost(ctx_t), ghost(ctx_seen), ghost(n_eng_notify), ghost(n_set_exec_header), ghost(n_set_mix), ghost(last_set_mix_epoch), ghost(last_set_mix), ghost(n_set_lhdr), ghost(set_lhdr)
 //@   ensures cancelled: ctx_cancelled(ctx, old(ctx_t)) ==> err != nil
 //@   ensures surfaced: !old(ctx_seen) && ctx_seen ==> err != nil
 //@   ensures polled: err == nil && ctx_t > old(ctx_t) ==> !ctx_cancelled(ctx, old(ctx_t))
@@ -960,12 +960,19 @@ package common
 //@   opt noalloc
 //@   ensures r == epoch_root(e)
 
+//@ ghost n_set_lhdr int
+//@ ghost set_lhdr HeaderT
+//@ func (s BeaconState) SetLatestBlockHeader(h) err
+//@   trusted
+//@   assigns ghost(n_set_lhdr), ghost(set_lhdr)
+//@   ensures n_set_lhdr == old(n_set_lhdr) + 1 && set_lhdr == *h
+
 // BEGIN C18 generated (tools/gen_c18.py in /verif)
 // cancelled: a context cancelled before the call makes it fail; surfaced: a cancellation observed by a poll
 // during the call makes it fail; polled: success after a poll means the context was not cancelled at entry.
 
 //@ func ProcessHeader(ctx, spec, state, header, expectedProposer) err
-//@   property C18 C03
+//@   property C18 C03 C01
 //@   panics off
 //@   requires ctx != nil
 //@   opt weakcalls
@@ -983,6 +990,8 @@ package common
 //@   ensures c03_proposer: err == nil ==> !st_vals_err(state) && reg_valid(st_vals(state), old(header.ProposerIndex)) && old(header.ProposerIndex) == expectedProposer
 //@   ensures c03_parent: err == nil ==> old(header.ParentRoot) == header_root(old(*st_latest(state)))
 //@   ensures c03_not_slashed: err == nil ==> !v_slashed(reg_val(st_vals(state), old(header.ProposerIndex)))
+//@   assigns ghost(n_set_lhdr), ghost(set_lhdr)
+//@   ensures c01_store: err == nil ==> n_set_lhdr == old(n_set_lhdr) + 1 && set_lhdr.Slot == old(header.Slot) && set_lhdr.ProposerIndex == old(header.ProposerIndex) && set_lhdr.ParentRoot == old(header.ParentRoot) && set_lhdr.BodyRoot == old(header.BodyRoot) && (forall k :: 0 <= k && k < 32 ==> set_lhdr.StateRoot[k] == 0)
 
 //@ func ProcessSlot(ctx, unused1, state) err
 //@   property C18
@@ -998,6 +1007,7 @@ package common
 //@   loop *
 //@     invariant ctx_t >= old(ctx_t) && (old(ctx_seen) || !ctx_seen)
 //@     invariant ctx_t > old(ctx_t) ==> !ctx_cancelled(ctx, old(ctx_t))
+//@   assigns ghost(n_set_lhdr), ghost(set_lhdr)
 
 //@ func ProcessSlots(ctx, spec, epc, state, slot) err
 //@   property C18 C03
@@ -1017,6 +1027,7 @@ package common
 //@     invariant ctx_t == old(ctx_t) ==> currentSlot < slot
 //@   ensures c03_forward: err == nil ==> !st_slot_err(state) && st_slot(state) < slot
 //@   assigns ghost(n_eth1_reset), ghost(n_slash_reset), ghost(last_slash_reset), ghost(n_set_mix), ghost(last_set_mix_epoch), ghost(last_set_mix), ghost(n_hist_update)
+//@   assigns ghost(n_set_lhdr), ghost(set_lhdr)
 //@   assigns ghost(n_set_prevjust), ghost(set_prevjust), ghost(n_set_curjust), ghost(set_curjust), ghost(n_set_fin), ghost(set_fin), ghost(n_set_jbits), ghost(set_jbits)
 
 //@ func StateTransition(ctx, spec, epc, state, benv, validateResult) err
@@ -1036,6 +1047,7 @@ package common
 //@   assigns ghost(n_eng_notify), ghost(n_set_exec_header)
 //@   assigns ghost(n_eth1_reset), ghost(n_slash_reset), ghost(last_slash_reset), ghost(n_set_mix), ghost(last_set_mix_epoch), ghost(last_set_mix), ghost(n_hist_update)
 //@   assigns ghost(n_set_mix), ghost(last_set_mix_epoch), ghost(last_set_mix)
+//@   assigns ghost(n_set_lhdr), ghost(set_lhdr)
 //@   assigns ghost(n_set_prevjust), ghost(set_prevjust), ghost(n_set_curjust), ghost(set_curjust), ghost(n_set_fin), ghost(set_fin), ghost(n_set_jbits), ghost(set_jbits)
 
 //@ func PostSlotTransition(ctx, spec, epc, state, benv, validateResult) err
@@ -1057,5 +1069,6 @@ package common
 //@   ensures c03_reads: validateResult && err == nil ==> !st_forkdata_err(state) && !st_gvr_err(state) && !epc_proposer_err(epc, old(benv.Slot))
 //@   ensures c03_signature: old(benv != nil && epc != nil && epc.ValidatorPubkeyCache != nil && (forall r PcPtr :: {pctrig(r)} pctrig(r) && alloc(r) ==> pc_local(r.pub2idx, r.idx2pub, r.trustedParentCount) && pc_chain(r.parent, r, r.trustedParentCount, r.parent.trustedParentCount, len(r.parent.idx2pub))) && (forall r PcPtr :: {held(r.rwLock)} held(r.rwLock) == 0)) && validateResult && err == nil ==> (exists pk Pub48T :: block_sig_ok(old(benv.ProposerIndex), epc_proposer(epc, old(benv.Slot)), old(benv.ForkDigest), old(benv.BlockRoot), old(benv.Signature), pk, DOMAIN_BEACON_PROPOSER, st_forkdata(state).CurrentVersion, st_gvr(state)))
 //@   assigns ghost(n_set_mix), ghost(last_set_mix_epoch), ghost(last_set_mix)
+//@   assigns ghost(n_set_lhdr), ghost(set_lhdr)
 
 // END C18 generated
